@@ -972,6 +972,39 @@ theorem src_geomed_certificate (data : Nat → Nat → ℝ) (n : Nat) (z w : Nat
   rw [Complex.norm_def, Complex.normSq_apply, ← h1, ← h2]
   simpa [sq] using hgrad
 
+/-- **the median kernel returns what its solver makes of the delayed samples of the definition, and a solver output that
+passes the certificate is their geometric median.**  `_delay_and_sum_noamp_median_nearest`, as translated from the source,
+applies its solver (`geomed`) to the list `g_k(τ_tx + τ_rx)` (nearest sample, fill value outside the window) — the same
+delayed samples the mean is taken of; if the value `z` it returns is none of these samples and the sum of the unit vectors
+from the samples to `z` has norm at most `ε`, then `z` minimises the sum of distances to the delayed samples up to `ε‖w − z‖` -/
+theorem src_das_median_nearest_certificate (ops : Ops ℝ) (d : Data ℝ ℂ) (solver : List ℂ → ℂ) (wt : Nat → Nat → ℂ) (tx rx : Nat → Nat)
+    (ltx lrx : Nat → Nat → ℝ) (dt t0 : ℝ) (fill : ℂ) (N n pt : Nat) (ε : ℝ) (w : ℂ) :
+    let smpl := fun k => (termNoAmp ops d (Tie.C02.problem wt tx rx ltx lrx dt t0 N n) .nearest pt k).getD fill
+    let z := Src.das_noamp_median_nearest (Tie.C02.srcOps ops) wt tx rx ltx lrx (ops.ofInt 1 / dt) t0 fill solver N n pt
+    z = solver ((List.range N).map smpl) ∧
+    ((∀ k ∈ Finset.range N, z ≠ smpl k) → ‖∑ k ∈ Finset.range N, (‖z - smpl k‖⁻¹) • (z - smpl k)‖ ≤ ε →
+      ∑ k ∈ Finset.range N, ‖z - smpl k‖ ≤ ∑ k ∈ Finset.range N, ‖w - smpl k‖ + ε * ‖w - z‖) := by
+  intro smpl z
+  refine ⟨Tie.C02.tie_noamp_median_nearest ops d solver wt tx rx ltx lrx dt t0 fill N n pt, fun hz hg => ?_⟩
+  exact geomed_optimal (Finset.range N) smpl z w ε hz hg
+
+/-- **the Huber kernel**: `_delay_and_sum_noamp_huber_lanczos` applies its solver (`huber_m_estimate(·, τ)`) to the delayed
+samples of the definition (Lanczos interpolation); a solver output that is a fixed point of the reweighting step is their
+Huber location (it minimises the Huber objective over all of ℂ) -/
+theorem src_das_huber_lanczos_fixed_point (ops : Ops ℝ) (sin : ℝ → ℝ) (pi : ℝ) (d : Data ℝ ℂ)
+    (hs : ∀ x, ops.sinc x = Src.das_sinc (Tie.C02.srcOpsT ops sin pi) x)
+    (hd : ∀ (s1 s2 : ℝ) (v : ℂ), d.smul s2 (d.smul s1 v) = d.smul (s1 * s2) v)
+    (solver : List ℂ → ℂ) (wt : Nat → Nat → ℂ) (tx rx : Nat → Nat)
+    (ltx lrx : Nat → Nat → ℝ) (dt t0 τ : ℝ) (hτ : 0 ≤ τ) (fill : ℂ) (a N n pt : Nat) (w : ℂ) :
+    let smpl := fun k => (termNoAmp ops d (Tie.C02.problem wt tx rx ltx lrx dt t0 N n) (.lanczos a) pt k).getD fill
+    let z := Src.das_noamp_huber_lanczos (Tie.C02.srcOpsT ops sin pi) d wt tx rx ltx lrx (ops.ofInt 1 / dt) t0 fill a τ solver N n pt
+    z = solver ((List.range N).map smpl) ∧
+    (∑ k ∈ Finset.range N, huberW τ ‖z - smpl k‖ ≠ 0 → huberIter (Finset.range N) smpl τ z = z →
+      ∑ k ∈ Finset.range N, huberRho τ ‖z - smpl k‖ ≤ ∑ k ∈ Finset.range N, huberRho τ ‖w - smpl k‖) := by
+  intro smpl z
+  refine ⟨Tie.C02.tie_noamp_huber_lanczos ops sin pi d hs hd solver wt tx rx ltx lrx dt t0 τ fill a N n pt, fun hW hfix => ?_⟩
+  exact huber_fixed_point_optimal (Finset.range N) smpl τ hτ z w hW hfix
+
 /-- non-vacuity: two samples `±1`, iterate `0`: one translated step returns `0` (a fixed point, weights `min(1, τ/1)`) -/
 example : Src.huber_iter robustOps (fun i j => if j = 0 then (if i = 0 then 1 else -1) else 0) 2 (1 / 2) 0 0 = (0, 0) := by
   simp [Src.huber_iter, robustOps, Src.pyMin, List.range_succ]
